@@ -214,3 +214,14 @@ Definition hist_ops (v : pview) : list (pview * op) :=
 Definition spec_hist (r : kproc) : list res :=
   [RList (Val (spec_cmdline (p_cmd r))); RList (Val (spec_cmdline (p_cmd r)));
    RBytes (Val (spec_name r)); RBytes (spec_exe r)].
+
+(* a process being torn down: /proc/<pid>/stat cannot be reached any more (absent, or the
+   probe is refused), every other entry is gone, the links are withheld *)
+Definition view_gone (denied esrch : bool) : pview :=
+  {| v_stat := None; v_stat_denied := denied; v_comm := bs "x";
+     v_cmdline := FENOENT; v_environ := FENOENT;
+     v_exe := if esrch then LESRCH else LENOENT; v_cwd := if esrch then LESRCH else LENOENT; v_paths := [] |}.
+Definition gone_ops (denied esrch : bool) : list (pview * op) :=
+  let v := view_gone denied esrch in if denied then [(v, OpCwd)] else [(v, OpCwd); (v, OpExe)].
+Definition spec_gone (denied : bool) : list res :=
+  if denied then [RBytes (Exc AccessDenied)] else [RBytes (Exc NoSuchProcess); RBytes (Exc NoSuchProcess)].
